@@ -63,6 +63,20 @@ type G struct {
 	panicking *PanicV
 	lastRet   Value
 	name      string
+	yielded   bool // vrt.Yield in progress
+}
+
+// othersRunnable reports whether any goroutine other than g can make progress.
+func (e *Engine) othersRunnable(g *G) bool {
+	for _, o := range e.gs {
+		if o == g || o.done {
+			continue
+		}
+		if o.blocked == nil || (o.blocked.ready != nil && o.blocked.kind != "yield" && o.blocked.ready()) {
+			return true
+		}
+	}
+	return false
 }
 
 type callSite struct {
@@ -406,8 +420,8 @@ var skipInit = map[string]bool{
 	"github.com/cenkalti/rain/v2/internal/logger": true,
 	// init enumerates the machine's network interfaces (netlink syscalls): no external IPs known
 	"github.com/cenkalti/rain/v2/internal/externalip": true,
-	// init interns address zones through package unique (runtime weak pointers)
-	"net/netip": true, "unique": true,
+	// package unique itself is stubbed (engine-side interning table)
+	"unique": true,
 	"github.com/nictuku/dht": true,
 }
 
